@@ -60,6 +60,9 @@ CLAIMED = {
     "C13": ("runtime monitoring: RNG-state sentinel (hash of the global random / numpy / torch generator states before vs after every call), canonical result digests compared across three prior global-generator states in one process and across separate processes started with different PYTHONHASHSEED",
             "Held-on-K-executions over 17 randomised components x generated string-labelled problems x seeds (incl. 0) x prior global states x interpreter hash seeds. Exploration: seeds/problems/hash seeds are sampled.",
             "digest = sha1 of a canonical repr (floats by repr, mappings sorted by repr); a component that reads a global generator WITHOUT disturbing it and by luck produces the same digest three times would be missed", "§4 C13"),
+    "C08": ("runtime monitoring: pointbasedvalueiteration.point_based_value_iteration wrapped source-free to capture the belief set the returned alpha vectors were computed on and the number k of back-ups; boundary recorder on policy.value/action_value/action_dist; oracle = independent exact expectimax bracket [L,U] of V*(b) with sound leaf bounds, belief-weighted reference MDP action values, point-based residual and k-step exactness on successor-closed belief sets",
+            "Held-on-K-executions over generated POMDPs, thresholds, horizons, budgets and beliefs. Exploration: all-inputs property; V* is only bracketed, never computed exactly.",
+            "trusts mon/ref/pomdp.py (expectimax on unnormalised beliefs) and mon/ref/mdp.py; slack uses k observed at run time", "§4 C08"),
 }
 
 PENDING_REASON = "check not built yet in this round (design in DESIGN.md §4); not claimed until its monitor exists and is silent on the unchanged tree"
